@@ -120,7 +120,7 @@ func (e Exponential) Quantile(p float64) float64 {
 	if p < 0 || p > 1 {
 		panic(badPercentile)
 	}
-	return -math.Log(1-p) / e.Rate
+	return -math.Log1p(-p) / e.Rate
 }
 
 // Rand returns a random sample drawn from the distribution.
